@@ -5,7 +5,7 @@
    The clauses evP1..evP5 are defined in Model/AuthSpec.v over the observable history alone. *)
 From Coq Require Import String ZArith.
 From OCI Require Import Base.Outcome Model.Scope Model.Challenge Model.Auth Model.AuthSpec
-  Proofs.Challenge Proofs.AuthC11 Proofs.AuthProps Proofs.AuthBody Proofs.AuthParse.
+  Model.AuthRedirect Proofs.Challenge Proofs.AuthC11 Proofs.AuthProps Proofs.AuthBody Proofs.AuthParse Proofs.AuthRedirect.
 
 (* password_destinations + host_isolation (registry side): every request that reaches a
    registry host is the caller's request to that very host; its Authorization header is the
@@ -110,4 +110,78 @@ Example C11_example :
      EResume 0; ERespClose 0;
      ESend 0 (MReg (s "h") (ABasic (s "u") (s "p"))) (RHttp 200 [] TBBadJSON);
      EResume 0; EReturn 0 (RetResp 200 false)].
+Proof. vm_compute. reflexivity. Qed.
+
+(* ---------- token servers that redirect (Model/AuthRedirect.v: http.Client under doTokenRequest) ----------
+
+   The theorems above are about the token request as acquireToken forms it; the realm's server may
+   answer it with a redirect, and the http.Client that doTokenRequest uses follows up to nine of
+   them - except that its CheckRedirect hook refuses to send the POST to another host.  These are
+   about everything that client sends, for ANY behaviour of the network (the argument net:
+   answers, Location headers and how they resolve). *)
+
+(* redirect_password_confinement: whatever the token servers answer, a request the client sends
+   carries no Authorization header, or the token request's own on a request to the host name of
+   the token request's URL (the realm the challenge named) or to a sub-domain of it.  Once a
+   hop has left that site the header stays off, also when a later hop comes back (the first
+   request is in the list too: it goes to the named host itself). *)
+Theorem C11_redirect_password_confinement : forall net m host hostport r sent,
+  is_tok_msg m = true -> client_do net m host hostport = (r, sent) ->
+  Forall (fun w => auth_of (w_msg w) = ANone
+                   \/ (auth_of (w_msg w) = auth_of m /\ in_site (w_host w) host = true)) sent.
+Proof.
+  intros net m host hostport r sent Hm Hd. apply client_do_facts in Hd as [_ [Hc _]]; [|exact Hm].
+  eapply Forall_impl; [|exact Hc]. intros w [H|[H1 H2]]; [now left|]. right. split; [exact H1|].
+  now apply dom_or_sub_in_site.
+Qed.
+Print Assumptions C11_redirect_password_confinement.
+
+(* redirect_bounded: at most ten requests per token request, the token request first; what Do
+   returns is an error or the answer to the last of them. *)
+Theorem C11_redirect_bounded : forall net m host hostport r sent,
+  is_tok_msg m = true -> client_do net m host hostport = (r, sent) ->
+  (List.length sent <= 10)%nat /\ (exists rest, sent = rest ++ [(m, host, hostport)])
+  /\ (r = RFail \/ exists w rest l, sent = w :: rest /\ net rest (w_msg w) (w_host w) = (r, l)).
+Proof.
+  intros net m host hostport r sent Hm Hd. apply client_do_facts in Hd as [Hl [_ [_ [Hr Hf]]]]; [|exact Hm].
+  split; [lia|]. now split.
+Qed.
+Print Assumptions C11_redirect_bounded.
+
+(* redirect_refresh_token_confinement (the repaired behaviour; before the CheckRedirect hook of
+   doTokenRequest a 307 / 308 made the client POST the form again wherever the Location pointed):
+   a form body on the wire - the refresh token is nowhere else - is the token request's own form
+   (a POST is only ever repeated, never made up: a GET token request is followed by GETs only),
+   and the request that carries it goes to the very host, port included, that the token request
+   went to: the realm the challenge named.  No exception. *)
+Theorem C11_redirect_refresh_token_confinement : forall net m host hostport r sent,
+  is_tok_msg m = true -> client_do net m host hostport = (r, sent) ->
+  Forall (fun w => match w_msg w with
+                   | MPost _ f _ => (exists u0 a0, m = MPost u0 f a0) /\ w_hostport w = hostport
+                   | MGet _ _ _ => True
+                   | MReg _ _ => False
+                   end) sent.
+Proof. intros net m host hostport r sent Hm Hd. now apply client_do_facts in Hd as [_ [_ [Hf _]]]. Qed.
+Print Assumptions C11_redirect_refresh_token_confinement.
+
+(* not vacuous: a 307 to another host is not followed by the POST (the 307 is the answer), one to
+   another path of the same host is *)
+Definition ex_post : msg :=
+  MPost (s "https://auth.example/token") [(k_grant_type, k_refresh_token); (k_refresh_token, s "rt")] ANone.
+Definition ex_redirecting_net (url host : string) : cnet :=
+  fun sent _ _ =>
+    match sent with
+    | [] => (RHttp 307 [] TBBadJSON,
+             LTo {| t_url := s url; t_base := s url; t_query := []; t_host := s host; t_hostport := s host |})
+    | _ => (RHttp 200 [] TBBadJSON, LNone)
+    end.
+
+Example C11_redirect_example_other_host :
+  client_do (ex_redirecting_net "https://elsewhere.test/issue" "elsewhere.test") ex_post (s "auth.example") (s "auth.example")
+  = (RHttp 307 [] TBBadJSON, [(ex_post, s "auth.example", s "auth.example")]).
+Proof. vm_compute. reflexivity. Qed.
+
+Example C11_redirect_example_same_host :
+  List.length (snd (client_do (ex_redirecting_net "https://auth.example/v2/token" "auth.example") ex_post (s "auth.example") (s "auth.example")))
+  = 2%nat.
 Proof. vm_compute. reflexivity. Qed.
